@@ -71,6 +71,16 @@ def scenarios(ctx: Ctx):
         sched = ['random', ctx.seed * 100003 + n + j] if j % 3 else ['pct', ctx.seed * 100003 + n + j, 3]
         scs.append({'topo': topo, 'progs': progs, 'clients': clients, 'sched': sched, 'lines': False, 'crash': None, 'probe': j % 4 == 0,
                     'family': 'unclaimed'})
+    # descendants handed to a worker AFTER it has seen their ancestor's CANCEL: three-level trees whose root cancels the middle
+    # task while its child is still creating grandchildren (L1: cancelled-task-started-after-its-worker-saw-the-cancel)
+    rng3 = random.Random(ctx.seed * 4099 + 1213)
+    m3 = 200 if ctx.quick else 5000
+    deep_topos = [['attached', 2], ['attached', 3], ['detached', [2]], ['attached', 2], ['detached', [3]], ['detached', [1, 1]]]
+    for j in range(m3):
+        sd = ctx.seed * 100003 + n + m + j
+        sched = [['race', sd, 'none', 'cancel-down'], ['random', sd], ['race', sd, 'none', 'cancel-down'], ['delay', sd, 0.1, 30, ['w']]][j % 4]
+        scs.append({'topo': deep_topos[j % len(deep_topos)], 'progs': rtcheck.gen_cancel_deep(rng3), 'clients': [[['submit', 'H0', 'root'], ['result', 'H0']]],
+                    'sched': sched, 'lines': j % 5 == 0, 'crash': None, 'probe': False, 'family': 'cancel-deep'})
     return scs
 
 
